@@ -68,6 +68,11 @@ def plan(tier, seed):
     for kbar in ([7, 10, 14, 18, 21] if not T else list(range(5, 25))):
         P("kbar%d-k4-%dx134" % (kbar, kbar + 2), 2, kbar + 2, 134, 1, 7, k=4, to=1800)
         qs[-1].defs.update({"GAPAT": kbar, "GAPLEN": 24 - kbar + 3}); qs[-1].layout.update({"GAPAT": kbar, "GAPLEN": 24 - kbar + 3})
+    # same, but the block with kbar pivots is the SECOND block, so that (full reduction) a row above it is
+    # eliminated through the lookup tables: table construction and table indexing must agree on the split
+    for kbar in ([18, 21] if not T else [9, 13, 14, 15, 17, 18, 19, 21, 22, 23]):
+        P("kbarB%d-k4-%dx134" % (kbar, kbar + 2), 2, kbar + 2, 134, 1, 8, k=4, to=3000)
+        qs[-1].defs.update({"GAPAT": kbar, "GAPLEN": 24 - kbar + 3}); qs[-1].layout.update({"GAPAT": kbar, "GAPLEN": 24 - kbar + 3})
     # scaled-down L3: k selection `0.75*2^k*ncols > L3/2` path
     P("m4ri-8x134-tinyL3", 2, 8, 134, 1, 0, cfg="tinyL3b")
     if T:
